@@ -948,6 +948,8 @@ def _m_hash(I, args, kwargs, node):
             t = ufun("hash.num", z3.RealSort(), z3.IntSort())(z3.ToReal(ops.num_term(p)[0]) if not ops.num_term(p)[1] else ops.num_term(p)[0])
         elif inspect_isclass(p):
             t = z3.IntVal(abs(hash(p.__name__)) % 100003)
+        elif type(p).__name__ == "SFSet":          # hash of a (frozen)set: a function of its members
+            t = ufun(f"hash.set!{p.t.sort()}", p.t.sort(), z3.IntSort())(p.t)
         else:
             raise Unsupported(f"hash of {p!r}")
         acc = h2(acc, t)
